@@ -325,5 +325,48 @@ func syntheticRequests(reqdir string) error {
 			return err
 		}
 	}
-	return os.WriteFile(filepath.Join(reqdir, "synthetic-imports.dir"), []byte("app/app.proto=app"), 0o644)
+	if err := os.WriteFile(filepath.Join(reqdir, "synthetic-imports.dir"), []byte("app/app.proto=app"), 0o644); err != nil {
+		return err
+	}
+	// a proto2 file in which every message with required fields is nested in a parent without fields of its own
+	req2 := descriptorpb.FieldDescriptorProto_LABEL_REQUIRED
+	events := &descriptorpb.FileDescriptorProto{
+		Name: str("events/events.proto"), Package: str("verif.events"), Syntax: str("proto2"),
+		Options: &descriptorpb.FileOptions{GoPackage: str("example.com/verif/events;events")},
+		MessageType: []*descriptorpb.DescriptorProto{{
+			Name: str("Events"),
+			NestedType: []*descriptorpb.DescriptorProto{{
+				Name: str("Login"),
+				Field: []*descriptorpb.FieldDescriptorProto{
+					{Name: str("user"), JsonName: str("user"), Number: i32(1), Label: lbl(req2), Type: typ(descriptorpb.FieldDescriptorProto_TYPE_STRING)},
+					{Name: str("attempts"), JsonName: str("attempts"), Number: i32(2), Label: lbl(opt), Type: typ(descriptorpb.FieldDescriptorProto_TYPE_INT32)},
+				},
+				NestedType: []*descriptorpb.DescriptorProto{{
+					Name: str("Origin"),
+					Field: []*descriptorpb.FieldDescriptorProto{
+						{Name: str("host"), JsonName: str("host"), Number: i32(1), Label: lbl(req2), Type: typ(descriptorpb.FieldDescriptorProto_TYPE_BYTES)},
+					},
+				}},
+			}, {Name: str("Nothing")}},
+		}, {
+			Name: str("Holder"),
+			Field: []*descriptorpb.FieldDescriptorProto{
+				{Name: str("login"), JsonName: str("login"), Number: i32(1), Label: lbl(opt), Type: typ(descriptorpb.FieldDescriptorProto_TYPE_MESSAGE), TypeName: str(".verif.events.Events.Login")},
+				{Name: str("logins"), JsonName: str("logins"), Number: i32(2), Label: lbl(rep), Type: typ(descriptorpb.FieldDescriptorProto_TYPE_MESSAGE), TypeName: str(".verif.events.Events.Login")},
+				{Name: str("origin"), JsonName: str("origin"), Number: i32(3), Label: lbl(opt), Type: typ(descriptorpb.FieldDescriptorProto_TYPE_MESSAGE), TypeName: str(".verif.events.Events.Login.Origin")},
+			},
+		}},
+	}
+	fm2 := &pluginpb.CodeGeneratorRequest{FileToGenerate: []string{"events/events.proto"}, Parameter: str("apiversion=v2,paths=source_relative"), ProtoFile: []*descriptorpb.FileDescriptorProto{events}, CompilerVersion: ver}
+	gen2 := &pluginpb.CodeGeneratorRequest{FileToGenerate: []string{"events/events.proto"}, Parameter: str("paths=source_relative"), ProtoFile: []*descriptorpb.FileDescriptorProto{events}, CompilerVersion: ver}
+	for name, r := range map[string]*pluginpb.CodeGeneratorRequest{"synthetic-nestedrequired.req": fm2, "synthetic-nestedrequired.goreq": gen2} {
+		raw, err := proto.MarshalOptions{Deterministic: true}.Marshal(r)
+		if err != nil {
+			return err
+		}
+		if err := os.WriteFile(filepath.Join(reqdir, name), raw, 0o644); err != nil {
+			return err
+		}
+	}
+	return os.WriteFile(filepath.Join(reqdir, "synthetic-nestedrequired.dir"), []byte("events/events.proto=events"), 0o644)
 }
